@@ -16,6 +16,7 @@ From Coq Require Import ZArith List Bool.
 From MZ.lib Require Import Arr.
 From MZ.spec Require Adler Zlib.
 From MZ.proofs Require StoredSpec InflateStoredZ InflateStoredChunks InflateStoredGen InflateStoredBoundary.
+From MZ.proofs Require InflateStored InflateStoredStop.
 Import ListNotations.
 
 Theorem C19_boundary_record_roundtrip :
@@ -76,6 +77,43 @@ Example C19_rebuild_at_a_stored_block_boundary :
           end
       | _ => False
       end
+  | _ => False
+  end.
+Proof. vm_compute. repeat split; reflexivity. Qed.
+
+(* "With stop-at-block-boundary requested, a stop is reported exactly once after each non-final block, with fewer than 8
+   pending bits", on raw streams of stored blocks.  One call (stop_call): a decoder at a block boundary, given what is
+   left of the stream and room for its payload, processes exactly ONE block - after a non-final block it returns
+   BlockBoundary having consumed exactly that block and written exactly its bytes, and leaves a decoder at the next
+   block header with no pending bits; after the final block it returns Done.  The caller's loop (stop_loop: call
+   again after every stop): as many stops as there are non-final blocks, then Done, with the whole payload written *)
+Theorem C19_stop_once_per_nonfinal_stored_block_partial :
+  forall flags chunks last fuel o s stops o' p',
+  has flags F_ZLIB = false -> has flags F_STOPBB = true -> has flags F_NONWRAP = true ->
+  StoredSpec.chunks_ok chunks -> StoredSpec.bytes_ok last -> (N.of_nat (length last) <= 65535)%N ->
+  (N.of_nat (length (concat chunks ++ last)) <= alen o)%N -> (alen o <= Mach.USIZE_MAX)%N ->
+  InflateStoredStop.stop_loop flags fuel dec_default (StoredSpec.stored_stream chunks last) o 0 0 = Ret (s, stops, o', p') ->
+  s = Done /\ stops = N.of_nat (length chunks) /\ p' = N.of_nat (length (concat chunks ++ last)) /\
+  aget_list o' 0 p' = concat chunks ++ last.
+Proof. exact InflateStoredStop.stops_once_per_block. Qed.
+
+Theorem C19_one_call_stops_after_exactly_one_stored_block_partial :
+  forall flags f0 ch0 bsR d o p res,
+  has flags F_ZLIB = false -> has flags F_STOPBB = true -> has flags F_NONWRAP = true ->
+  InflateStored.shapeB ((f0, ch0) :: bsR) -> InflateStoredStop.at_boundary d ->
+  (p + N.of_nat (length (InflateStored.pay ((f0, ch0) :: bsR))) <= alen o)%N -> (alen o <= Mach.USIZE_MAX)%N ->
+  decompress d (InflateStored.enc ((f0, ch0) :: bsR)) o p Mach.USIZE_MAX flags = Ret res ->
+  cr_out res = N.of_nat (length ch0) /\ aget_list (cr_buf res) p (cr_out res) = ch0 /\ alen (cr_buf res) = alen o /\
+  (forall i, (i < p)%N -> aget (cr_buf res) i = aget o i) /\
+  (if f0
+   then cr_status res = Done /\ cr_in res = N.of_nat (length (InflateStored.enc ((f0, ch0) :: bsR)))
+   else cr_status res = BlockBoundary /\ cr_in res = N.of_nat (length (StoredSpec.stored_block false ch0)) /\
+        d_state (cr_dec res) = ReadBlockHeader /\ d_num_bits (cr_dec res) = 0%N /\ d_bit_buf (cr_dec res) = 0%N).
+Proof. exact InflateStoredStop.stop_call. Qed.
+
+Example C19_two_stops_then_done :
+  match InflateStoredStop.stop_loop 132 10 dec_default (StoredSpec.stored_stream [[97; 98; 99]%N; []; [7]%N] [100; 101]%N) (amake 8 0) 0 0 with
+  | Ret (s, stops, o', p') => s = Done /\ stops = 3%N /\ p' = 6%N /\ aget_list o' 0 6 = [97; 98; 99; 7; 100; 101]%N
   | _ => False
   end.
 Proof. vm_compute. repeat split; reflexivity. Qed.
